@@ -227,6 +227,52 @@ def h_ops(kind, init_name):
     return Harness(f"{kind}-ops-from-{init_name}", run, spec=Spec())
 
 
+def h_any_length(kind, op):
+    """assignment / extend / update with a source of ANY length (loop rule): for an arbitrary element of the source exactly that
+    element is added to the container and exactly its relation (owner, element, not inferred) is recorded; nothing is skipped."""
+    loop_of = {"assign": ("PropertyDescriptor.__set__", 0), "extend": ("MonitoredList.extend", 0), "update": ("MonitoredSet.update", 0)}[op]
+    var_of = {"assign": "v", "extend": "item", "update": "value"}[op]
+
+    def run(vm):
+        from pyvc.values import SymStream
+        from pyvc.interp import LoopSpec
+        ctx = vm.ctx
+        owner, E, rel, desc = setup(vm, kind)
+        env = dict(E, owner=owner)
+        run_stmt(vm, "owner.items = [e1]" if kind == "list" else "owner.items = {e1}", env)
+        cont, c0 = contents(vm, owner)
+        data = cont.fields["__data__"]
+        Elem = cls(vm, "pyvc_synth_c16", "Elem")
+        source = SymStream("assigned-elements", lambda it, i: it.alloc(Elem, {}, tag="arbitrary-element"), length=ctx.fresh_int("n_source"))
+        if op == "assign":
+            vm.spec.stubs["krrood.entity_query_language.utils:make_list"] = lambda it, a, k: source if a[0] is source else INLINE
+            vm.spec.stubs["krrood.ontomatic.property_descriptor.property_descriptor:make_list"] = vm.spec.stubs["krrood.entity_query_language.utils:make_list"]
+        del rel[:]
+        mark = len(ctx.effects)
+        vm.spec.opaque_hooks["havoc_container"] = lambda it, old, name: old
+
+        def inv(it, fr):
+            if any(n[0] == "early-exit" for n in ctx.notes):
+                return z3.BoolVal(False)
+            cur = fr.locals.get(var_of)
+            adds = [e[1] for e in ctx.effects[mark:] if e[0] == "mutate" and e[1][0] is data and e[1][1] in ("append", "add")]
+            if not (isinstance(cur, Obj) and cur.tag == "arbitrary-element"):
+                return z3.BoolVal(not adds and not rel)
+            in_data = any(x is cur for x in data.items)
+            ok = len(adds) == 1 and in_data and len(rel) == 1 and rel[0][0] is owner and rel[0][1] is cur and rel[0][2] is False
+            return z3.BoolVal(ok)
+        vm.spec.loops[loop_of] = LoopSpec(inv=inv)
+        if op == "assign":
+            vm.call_method(desc, "__set__", owner, source)
+            cleared = [e[1] for e in ctx.effects[mark:] if e[0] == "mutate" and e[1][0] is data and e[1][1] == "clear"]
+            ctx.check(f"PropertyDescriptor.__set__[{kind}]::the-old-contents-are-dropped-once-before-the-new-ones-arrive", z3.BoolVal(len(cleared) == 1), detail=repr(cleared))
+        else:
+            vm.call_method(cont, op, source)
+        ctx.check(f"{kind}.{op}[any-length]::every-element-of-the-source-is-visited", z3.BoolVal(not any(n[0] == "early-exit" for n in ctx.notes)))
+        ctx.cover("exit")
+    return Harness(f"{kind}-{op}-any-length", run, spec=Spec(), covers=["exit"])
+
+
 def h_inferred_paths():
     """_update / _on_add(inferred=True): membership test first, weak reference stored, relation not re-added."""
     def run(vm):
@@ -281,5 +327,6 @@ def harnesses():
     for kind in ("list", "set"):
         for init in INITIALS:
             hs.append(h_ops(kind, init))
+    hs += [h_any_length("list", "assign"), h_any_length("set", "assign"), h_any_length("list", "extend"), h_any_length("set", "update")]
     hs += [h_inferred_paths(), h_single_valued(), h_canary()]
     return hs
